@@ -210,84 +210,8 @@ fn oracle(case: &Case, obs: &mut Obs) -> Result<(), Fail> {
 
 static DETECT_DEADLOCK: std::sync::atomic::AtomicBool = std::sync::atomic::AtomicBool::new(false);
 
-/// child side: `C02_ONE_CPU_CHILD=<case file>`; restricts itself to one CPU of its affinity set
-/// (so that `num_cpus::get()` is 1 for the code under test), runs the oracle, reports on stdout
-fn one_cpu_child(path: &str) -> ! {
-	unsafe {
-		let mut set: libc::cpu_set_t = std::mem::zeroed();
-		if libc::sched_getaffinity(0, std::mem::size_of::<libc::cpu_set_t>(), &mut set) != 0 {
-			println!("RESULT machinery\tsched_getaffinity failed");
-			std::process::exit(0);
-		}
-		let allowed: Vec<usize> = (0..libc::CPU_SETSIZE as usize).filter(|i| libc::CPU_ISSET(*i, &set)).collect();
-		let pick = allowed[std::process::id() as usize % allowed.len()];
-		let mut one: libc::cpu_set_t = std::mem::zeroed();
-		libc::CPU_SET(pick, &mut one);
-		if libc::sched_setaffinity(0, std::mem::size_of::<libc::cpu_set_t>(), &one) != 0 {
-			println!("RESULT machinery\tsched_setaffinity failed");
-			std::process::exit(0);
-		}
-	}
-	if num_cpus::get() != 1 {
-		println!("RESULT machinery\tnum_cpus::get() is {} after restricting the process to one CPU", num_cpus::get());
-		std::process::exit(0);
-	}
-	DETECT_DEADLOCK.store(true, std::sync::atomic::Ordering::Relaxed);
-	let case: Case = match std::fs::read(path).map_err(|e| e.to_string()).and_then(|b| serde_json::from_slice(&b).map_err(|e| e.to_string())) {
-		Ok(c) => c,
-		Err(e) => {
-			println!("RESULT machinery\tcannot read the case: {e}");
-			std::process::exit(0);
-		}
-	};
-	let mut obs = Obs { labels: vec![], nontrivial: false, counters: vec![] };
-	let r = vt::guard(|| oracle(&case, &mut obs));
-	for l in &obs.labels {
-		println!("LABEL {l}");
-	}
-	println!("NONTRIVIAL {}", obs.nontrivial as u8);
-	match r {
-		Ok(Ok(())) => println!("RESULT ok"),
-		Ok(Err(f)) => println!("RESULT fail\t{}\t{}", f.sig, f.what.replace('\n', " ")),
-		Err(p) => println!("RESULT fail\tpanic-in-oracle\t{}", p.message.replace('\n', " ")),
-	}
-	vt::util::cleanup_tmp();
-	std::process::exit(0);
-}
-
 fn one_cpu_oracle(case: &Case, obs: &mut Obs) -> Result<(), Fail> {
-	let file = util::tmp_path(".case.json");
-	let _g = TmpGuard(file.clone());
-	std::fs::write(&file, serde_json::to_vec(case).unwrap()).map_err(|e| Fail::new("harness:io", format!("{e}")))?;
-	let out = std::process::Command::new("/proc/self/exe")
-		.env("C02_ONE_CPU_CHILD", &file)
-		.stdin(std::process::Stdio::null())
-		.stderr(std::process::Stdio::null())
-		.output()
-		.unwrap_or_else(|e| vt::engine::die(&format!("C02: cannot start the one-CPU child: {e}")));
-	let text = String::from_utf8_lossy(&out.stdout);
-	let mut result = None;
-	for line in text.lines() {
-		if let Some(l) = line.strip_prefix("LABEL ") {
-			obs.label(l.to_string());
-		} else if let Some(n) = line.strip_prefix("NONTRIVIAL ") {
-			obs.nontrivial(n == "1");
-		} else if let Some(r) = line.strip_prefix("RESULT ") {
-			result = Some(r.to_string());
-		}
-	}
-	obs.label("one-visible-cpu");
-	match result.as_deref() {
-		Some("ok") => Ok(()),
-		Some(r) if r.starts_with("fail\t") => {
-			let mut it = r.splitn(3, '\t');
-			it.next();
-			let sig = it.next().unwrap_or("?").to_string();
-			let what = it.next().unwrap_or("").to_string();
-			Err(Fail::new(sig, format!("with one CPU visible to the process: {what}")))
-		}
-		other => vt::engine::die(&format!("C02: one-CPU child gave no verdict (status {:?}, result {other:?})", out.status)),
-	}
+	vt::onecpu::run_in_child("C02_ONE_CPU_CHILD", &serde_json::to_vec(case).unwrap(), obs)
 }
 
 // ---------------------------------------------------------------------------------------
@@ -310,9 +234,11 @@ fn all_boxes(z: u8) -> Vec<BoxChoice> {
 }
 
 fn main() {
-	if let Ok(path) = std::env::var("C02_ONE_CPU_CHILD") {
-		one_cpu_child(&path);
-	}
+	vt::onecpu::child_entry("C02_ONE_CPU_CHILD", |bytes, obs| {
+		DETECT_DEADLOCK.store(true, std::sync::atomic::Ordering::Relaxed);
+		let case: Case = serde_json::from_slice(bytes).map_err(|e| Fail::new("harness:case", format!("{e}")))?;
+		oracle(&case, obs)
+	});
 	let mut check = Check::from_args(
 		"C02",
 		"exploration",
